@@ -12,19 +12,21 @@ using std::cerr;
 static int g_cwd;
 enum { VU_MAXARGS = 3 };
 // what was recorded about the i-th command-line file
-static int g_abs_cwd[VU_MAXARGS + 1], g_parse_cwd[VU_MAXARGS + 1]; static int g_abs_calls, g_parse_calls, g_inserted;
+static int g_abs_cwd[VU_MAXARGS + 1], g_parse_cwd[VU_MAXARGS + 1]; static int g_abs_calls, g_parse_calls, g_inserted, g_inserted_canonical;
 static bool g_chdir_ok, g_parse_ok;
 class Filename {
 public:
   int _arg;          // which argv entry this name came from (0: none)
   int _abs_cwd;      // the working directory against which it was made absolute (-1: still relative)
+  bool _canonical;   // symbolic links resolved (make_canonical), the form in which handle_include_directive looks names up
   bool _nonempty;
-  Filename() : _arg(0), _abs_cwd(-1), _nonempty(false) {}
+  Filename() : _arg(0), _abs_cwd(-1), _canonical(false), _nonempty(false) {}
   static Filename from_os_specific(const char *s);
   bool operator!=(const char *s) const { return _nonempty; }       // compared with "" only
   bool chdir() const { if (!g_chdir_ok) return false; g_cwd = g_cwd + 1; return true; }
   void set_text() {}
   std::string get_basename() const { return std::string(); }
+  bool make_canonical() { make_absolute(); _canonical = true; return true; }
   void make_absolute() { _abs_cwd = g_cwd; if (_arg >= 1 && _arg <= VU_MAXARGS) g_abs_cwd[_arg] = g_cwd; g_abs_calls++; }
   std::string to_os_generic() const { return std::string(); }
   bool operator<(const Filename &o) const { return _arg < o._arg; }
@@ -32,7 +34,7 @@ public:
 inline std::ostream &operator<<(std::ostream &out, const Filename &n) { return out << "f"; }
 static char *g_argv_store[VU_MAXARGS + 2];
 inline Filename Filename::from_os_specific(const char *s) { Filename f; for (int i = 1; i <= VU_MAXARGS; i++) if (s == g_argv_store[i]) f._arg = i; f._nonempty = true; return f; }
-class ExplicitFiles { public: void insert(const Filename &f) { g_inserted++; } };
+class ExplicitFiles { public: void insert(const Filename &f) { g_inserted++; if (f._canonical) g_inserted_canonical++; } };
 class CPPParser { public: ExplicitFiles _explicit_files;
   // parse_file resolves a relative name against the working directory at the time of the call
   bool parse_file(const Filename &f) { if (f._arg >= 1 && f._arg <= VU_MAXARGS) g_parse_cwd[f._arg] = g_cwd; g_parse_calls++; return g_parse_ok; } };
